@@ -6,6 +6,7 @@ import (
 	"fmt"
 	"math/rand"
 	"os"
+	"sort"
 	"strconv"
 
 	"mellium.im/xmpp/form"
@@ -18,10 +19,15 @@ import (
 //
 // Drives the life cycle of a data form (tla/Form.tla) on the real form package: a form
 // built with the field constructors of one configuration, then a sequence of
-// Set / Get / Raw / Submit / TokenReader / Unmarshal operations.  One trace per scenario,
-// one event per operation with what the call returned; tla/TrForm.tla decides.
-// With "-" the scenarios are: every sequence of length <= 2 over a reduced operation set,
-// plus FORM_N random sequences of length FORM_LEN per configuration (seed VERIF_SEED).
+// Set / Get / Raw / Submit / TokenReader / Unmarshal(ty) operations.  Unmarshal(ty) decodes
+// a document - the form's own encoding with the type attribute the specification gives
+// for ty (form, result, submit, cancel, none, not one of the four) - and every later
+// operation applies to the decoded form.  One trace per scenario, one event per operation
+// with what the call returned; tla/TrForm.tla decides.
+// With "-" the scenarios are: every single operation; every Set followed by the
+// observations, on the constructed form and on the form decoded from a document of every
+// type; every pair (decode a document of type ty, operation); plus FORM_N random
+// sequences of length FORM_LEN per configuration (seed VERIF_SEED).
 
 type fieldCfg struct {
 	Ft  string   `json:"ft"`
@@ -39,6 +45,10 @@ type formOp struct {
 	Op  string    `json:"op"` // set get raw submit tokenreader unmarshal
 	Var string    `json:"var,omitempty"`
 	TV  *typedVal `json:"tv,omitempty"`
+	Ty  string    `json:"ty,omitempty"` // unmarshal: the type of the document (a key of formCfgFile.Types)
+	// unmarshal: how the document reaches the decoder - "" from a token stream (what a
+	// session hands to a handler), "bytes" through xml.Unmarshal
+	Via string `json:"via,omitempty"`
 }
 
 type formScenario struct {
@@ -50,6 +60,52 @@ type formCfgFile struct {
 	Configs [][]fieldCfg `json:"configs"`
 	Vars    []string     `json:"vars"`
 	Values  []typedVal   `json:"values"`
+	// document type name -> the value of the type attribute (no element: no attribute)
+	Types map[string][]string `json:"types"`
+}
+
+// docTypes is formCfgFile.Types of the run (the specification's DocTypeAttr).
+var docTypes map[string][]string
+
+// withType returns the tokens with the type attribute of the root element replaced.
+func withType(toks []xml.Token, ty string) ([]xml.Token, error) {
+	val, known := docTypes[ty]
+	if !known {
+		panic("driver: unknown document type " + ty)
+	}
+	if len(toks) == 0 {
+		return nil, fmt.Errorf("empty encoding")
+	}
+	s, ok := toks[0].(xml.StartElement)
+	if !ok {
+		return nil, fmt.Errorf("first token is %T", toks[0])
+	}
+	root := xml.StartElement{Name: s.Name}
+	for _, a := range s.Attr {
+		if a.Name.Local != "type" {
+			root.Attr = append(root.Attr, a)
+		}
+	}
+	if len(val) > 0 {
+		root.Attr = append(root.Attr, xml.Attr{Name: xml.Name{Local: "type"}, Value: val[0]})
+	}
+	out := append([]xml.Token{root}, toks[1:]...)
+	return out, nil
+}
+
+// rootType is the type attribute of the root element of an encoding (none: empty list).
+func rootType(toks []xml.Token) []string {
+	out := []string{}
+	if len(toks) > 0 {
+		if s, ok := toks[0].(xml.StartElement); ok {
+			for _, a := range s.Attr {
+				if a.Name.Local == "type" {
+					out = append(out, a.Value)
+				}
+			}
+		}
+	}
+	return out
 }
 
 func init() { subcommands["form"] = cmdForm }
@@ -201,7 +257,7 @@ func runFormScenario(sc formScenario) []vt.Ev {
 				}
 				e["v"] = out
 			case "submit":
-				e["toks"], e["fields"] = []Tok{}, []interface{}{}
+				e["toks"], e["fields"], e["type"] = []Tok{}, []interface{}{}, []string{}
 				r, ok := d.Submit()
 				e["ok"] = ok
 				toks, err := readTokens(r)
@@ -209,26 +265,44 @@ func runFormScenario(sc formScenario) []vt.Ev {
 					return err
 				}
 				e["toks"] = absToks(toks)
+				e["type"] = rootType(toks)
 				var sub form.Data
 				if err := xml.NewTokenDecoder(replay(toks)).Decode(&sub); err != nil {
 					return err
 				}
 				e["fields"] = projFields(&sub)
 			case "tokenreader":
-				e["toks"] = []Tok{}
+				e["toks"], e["type"] = []Tok{}, []string{}
 				toks, err := readTokens(d.TokenReader())
 				if err != nil {
 					return err
 				}
 				e["toks"] = absToks(toks)
+				e["type"] = rootType(toks)
 			case "unmarshal":
-				e["err"], e["fields"] = "", []interface{}{}
+				ty := op.Ty
+				if ty == "" {
+					ty = "form"
+				}
+				e["ty"], e["err"], e["fields"] = ty, "", []interface{}{}
 				toks, err := readTokens(d.TokenReader())
 				if err != nil {
 					return err
 				}
+				if toks, err = withType(toks, ty); err != nil {
+					return err
+				}
 				nd := &form.Data{}
-				if err := xml.NewTokenDecoder(replay(toks)).Decode(nd); err != nil {
+				if op.Via == "bytes" {
+					var b []byte
+					if b, err = tokensToBytes(toks); err != nil {
+						return err
+					}
+					err = xml.Unmarshal(b, nd)
+				} else {
+					err = xml.NewTokenDecoder(replay(toks)).Decode(nd)
+				}
+				if err != nil {
 					e["err"] = err.Error()
 					return nil
 				}
@@ -262,6 +336,10 @@ func cmdForm(args []string) {
 	}
 	if err := json.Unmarshal(b, &cf); err != nil {
 		fail("formcfg: %v", err)
+	}
+	docTypes = cf.Types
+	if len(docTypes) == 0 {
+		fail("formcfg: no document types")
 	}
 	var scs []formScenario
 	if args[2] != "-" {
@@ -319,6 +397,17 @@ func genFormScenarios(cf formCfgFile) []formScenario {
 	if length == 0 {
 		length = 5
 	}
+	var types []string
+	for ty := range cf.Types {
+		types = append(types, ty)
+	}
+	sort.Strings(types)
+	via := func(k int) string {
+		if k%2 == 1 {
+			return "bytes"
+		}
+		return ""
+	}
 	var out []formScenario
 	for _, cfg := range cf.Configs {
 		own := []string{"nofield"}
@@ -333,15 +422,35 @@ func genFormScenarios(cf formCfgFile) []formScenario {
 			}
 			ops = append(ops, formOp{Op: "get", Var: v}, formOp{Op: "raw", Var: v})
 		}
-		ops = append(ops, formOp{Op: "submit"}, formOp{Op: "tokenreader"}, formOp{Op: "unmarshal"})
-		// exhaustive: every Set followed by every observation (get of the same variable, submit, unmarshal+get)
-		for _, a := range ops {
+		ops = append(ops, formOp{Op: "submit"}, formOp{Op: "tokenreader"})
+		// decoding a document of every type, from a token stream and from bytes
+		var decodes []formOp
+		for _, ty := range types {
+			decodes = append(decodes, formOp{Op: "unmarshal", Ty: ty}, formOp{Op: "unmarshal", Ty: ty, Via: "bytes"})
+		}
+		ops = append(ops, decodes...)
+		// exhaustive: every operation alone and on the form decoded from a document of every type;
+		// every Set followed by every observation (get of the same variable, submit, encoding,
+		// decode + get) on the constructed form and on the decoded form of every type
+		for k, a := range ops {
 			if a.Op != "set" {
 				out = append(out, formScenario{Cfg: cfg, Ops: []formOp{a}})
+				for _, dz := range decodes {
+					out = append(out, formScenario{Cfg: cfg, Ops: []formOp{dz, a}})
+				}
 				continue
 			}
 			out = append(out, formScenario{Cfg: cfg, Ops: []formOp{a, {Op: "get", Var: a.Var}, {Op: "submit"}, {Op: "tokenreader"}}})
-			out = append(out, formScenario{Cfg: cfg, Ops: []formOp{a, {Op: "unmarshal"}, {Op: "get", Var: a.Var}, a, {Op: "submit"}}})
+			out = append(out, formScenario{Cfg: cfg, Ops: []formOp{a, {Op: "unmarshal", Ty: "form"}, {Op: "get", Var: a.Var}, a, {Op: "submit"}}})
+			for i, ty := range types {
+				dz := formOp{Op: "unmarshal", Ty: ty, Via: via(i + k)}
+				out = append(out, formScenario{Cfg: cfg, Ops: []formOp{dz, a, {Op: "get", Var: a.Var}, {Op: "submit"}, {Op: "tokenreader"}}})
+				if ty == "submit" {
+					// the encoding of a form of type submit may be the submission of its values
+					out = append(out, formScenario{Cfg: cfg, Ops: []formOp{dz, a, {Op: "unmarshal", Ty: types[(i+k)%len(types)], Via: via(k)},
+						{Op: "get", Var: a.Var}, {Op: "raw", Var: a.Var}, {Op: "submit"}}})
+				}
+			}
 		}
 		// seeded random sequences
 		for k := 0; k < n; k++ {
